@@ -1,5 +1,6 @@
 import ButlerModel.Model.Predicate
 import ButlerModel.Model.NormalForm
+import ButlerModel.Gen.PredicatePy
 /-! # C15 — boolean rewriting of predicates preserves their truth table (new query system)
 
 All theorems hold for **every** predicate, every number of operands and every assignment of the
@@ -338,6 +339,108 @@ example : logicalNot [[.pos 0, .pos 1], [.neg 2]] = [[.neg 0, .pos 2], [.neg 1, 
 example : logicalAnd [[.pos 0]] [[[]], [[.pos 1]]] = [[]] := by decide
 
 end C15
+
+/-! ## T-tie: the combinators **as translated from `queries/tree/_predicate.py` on every run**
+
+`Gen/PredicatePy.lean` is regenerated from the working tree by `translate/gen_predicate.py`
+(`for` loops become folds, the `itertools.product` comprehension a `flatMap`).  The theorems below are
+about those generated definitions: a change of `_impl_or`, of the collapse in `logical_and`, of the
+starting values or the order of the loops in `logical_not`, … changes the definitions they speak about. -/
+namespace C15.Translated
+open Pred K3 C15
+
+theorem implAnd_eq (a b : Operands) : Gen.PredPy.implAnd a b = Pred.implAnd a b := by
+  first | rfl | simp [Gen.PredPy.implAnd, Pred.implAnd]
+theorem implOr_eq (a b : Operands) : Gen.PredPy.implOr a b = Pred.implOr a b := by
+  first | rfl | simp [Gen.PredPy.implOr, Pred.implOr]
+
+/-- `_impl_and` means AND. -/
+theorem translated_implAnd (σ) (a b : Operands) :
+    eval σ (Gen.PredPy.implAnd a b) = and3 (eval σ a) (eval σ b) := by
+  rw [implAnd_eq]; exact eval_implAnd σ a b
+
+/-- `_impl_or` (the product of the OR-groups) means OR. -/
+theorem translated_implOr (σ) (a b : Operands) :
+    eval σ (Gen.PredPy.implOr a b) = or3 (eval σ a) (eval σ b) := by
+  rw [implOr_eq]; exact eval_implOr σ a b
+
+/-- `from_bool`: the constant cases. -/
+theorem translated_fromBool (σ) (v : Bool) : eval σ (Gen.PredPy.fromBool v) = if v then .tt else .ff := by
+  have : Gen.PredPy.fromBool v = Pred.fromBool v := by
+    first | rfl | simp [Gen.PredPy.fromBool, Pred.fromBool]
+  rw [this]; exact eval_fromBool σ v
+
+theorem foldl_implAnd_eq (args : List Operands) (self : Operands) :
+    args.foldl (fun operands arg => Gen.PredPy.implAnd operands arg) self = args.foldl Pred.implAnd self := by
+  induction args generalizing self with
+  | nil => rfl
+  | cons a as ih => simp only [List.foldl_cons, implAnd_eq, ih]
+
+theorem foldl_implOr_eq (args : List Operands) (self : Operands) :
+    args.foldl (fun operands arg => Gen.PredPy.implOr operands arg) self = args.foldl Pred.implOr self := by
+  induction args generalizing self with
+  | nil => rfl
+  | cons a as ih => simp only [List.foldl_cons, implOr_eq, ih]
+
+/-- **`logical_and` as written in the source** (n-ary, with its collapse to FALSE) is the conjunction of
+its operands under every assignment. -/
+theorem translated_logicalAnd (σ) (self : Operands) (args : List Operands) :
+    eval σ (Gen.PredPy.logicalAnd self args) = args.foldl (fun acc p => and3 acc (eval σ p)) (eval σ self) := by
+  have : Gen.PredPy.logicalAnd self args = Pred.logicalAnd self args := by
+    simp only [Gen.PredPy.logicalAnd, Pred.logicalAnd, foldl_implAnd_eq]
+  rw [this]; exact eval_logicalAnd σ self args
+
+/-- **`logical_or` as written in the source** is the disjunction of its operands. -/
+theorem translated_logicalOr (σ) (self : Operands) (args : List Operands) :
+    eval σ (Gen.PredPy.logicalOr self args) = args.foldl (fun acc p => or3 acc (eval σ p)) (eval σ self) := by
+  have : Gen.PredPy.logicalOr self args = Pred.logicalOr self args := by
+    simp only [Gen.PredPy.logicalOr, Pred.logicalOr, foldl_implOr_eq]
+  rw [this]; exact eval_logicalOr σ self args
+
+/-- **`logical_not` as written in the source** (De Morgan by two nested loops) is negation. -/
+theorem translated_logicalNot (σ) (p : Operands) :
+    eval σ (Gen.PredPy.logicalNot p) = not3 (eval σ p) := by
+  have : Gen.PredPy.logicalNot p = Pred.logicalNot p := by
+    first
+    | rfl
+    | (simp only [Gen.PredPy.logicalNot, Pred.logicalNot]
+       congr 1
+       funext acc g
+       rw [implOr_eq]
+       congr 1
+       induction g using List.reverseRecOn with
+       | nil => rfl
+       | append_singleton l a ih => simp only [List.foldl_append, List.foldl_cons, List.foldl_nil, implAnd_eq, ih])
+  rw [this]; exact eval_logicalNot σ p
+
+/-- The translated combinators agree with the ones the rest of this file reasons about, so every theorem
+above (`rewrite_preserves`, `rewrite_characterised`, …) is about the source's own operations. -/
+theorem translated_ops_are_model_ops :
+    (∀ s a, Gen.PredPy.logicalAnd s a = Pred.logicalAnd s a) ∧
+    (∀ s a, Gen.PredPy.logicalOr s a = Pred.logicalOr s a) ∧
+    (∀ p, Gen.PredPy.logicalNot p = Pred.logicalNot p) ∧
+    (∀ v, Gen.PredPy.fromBool v = Pred.fromBool v) := by
+  refine ⟨?_, ?_, ?_, ?_⟩
+  · intro s a; simp only [Gen.PredPy.logicalAnd, Pred.logicalAnd, foldl_implAnd_eq]
+  · intro s a; simp only [Gen.PredPy.logicalOr, Pred.logicalOr, foldl_implOr_eq]
+  · intro p
+    first
+    | rfl
+    | (simp only [Gen.PredPy.logicalNot, Pred.logicalNot]
+       congr 1
+       funext acc g
+       rw [implOr_eq]
+       congr 1
+       induction g using List.reverseRecOn with
+       | nil => rfl
+       | append_singleton l a ih => simp only [List.foldl_append, List.foldl_cons, List.foldl_nil, implAnd_eq, ih])
+  · intro v; first | rfl | simp [Gen.PredPy.fromBool, Pred.fromBool]
+
+/-- non-vacuity: `NOT ((A AND B) OR C)` through the translated operations -/
+example : Gen.PredPy.logicalNot (Gen.PredPy.logicalOr (Gen.PredPy.logicalAnd [[.pos 0]] [[[.pos 1]]]) [[[.pos 2]]]) =
+    [[.neg 0, .neg 1], [.neg 0, .neg 2], [.neg 2, .neg 1], [.neg 2, .neg 2]] := by decide
+
+end C15.Translated
 
 /-! # Legacy normaliser (`normalForm.py`) -/
 namespace C15.Legacy
